@@ -33,7 +33,8 @@ def enc(t):
     return "b" + t[1] + "(" + enc(t[2]) + "," + enc(t[3]) + ")"
 
 
-def scss(t):
+def scss(t, spaced=False):
+    """source text; `spaced`: white space inside every pair of parentheses"""
     k = t[0]
     if k == "n":
         return t[1] + t[2]
@@ -42,8 +43,21 @@ def scss(t):
     if k == "i":
         return t[1]
     if k == "p":
-        return "(" + scss(t[1]) + ")"
-    return scss(t[2]) + " " + t[1] + " " + scss(t[3])
+        return ("( " + scss(t[1], spaced) + " )") if spaced else ("(" + scss(t[1], spaced) + ")")
+    return scss(t[2], spaced) + " " + t[1] + " " + scss(t[3], spaced)
+
+
+def full_parens(t):
+    """redundant parentheses around every binary node below the root"""
+    if t[0] == "p":
+        return full_parens(t[1])
+    if t[0] != "b":
+        return t
+
+    def wrap(x):
+        x = full_parens(x)
+        return ("p", x) if x[0] == "b" else x
+    return ("b", t[1], wrap(t[2]), wrap(t[3]))
 
 
 def count_ops(t):
@@ -162,23 +176,26 @@ def make_env(rng_seed):
     return env
 
 
-TOK = re.compile(r"\s*(var\(--[xyz]\)|-?(?:\d+\.?\d*|\.\d+)(?:[a-zA-Z%]+)?|[A-Za-z_][A-Za-z0-9_-]*|[-+*/()])")
+TOK = re.compile(r"(\s*)(var\(--[xyz]\)|-?(?:\d+\.?\d*|\.\d+)(?:[a-zA-Z%]+)?|[A-Za-z_][A-Za-z0-9_-]*|[-+*/()])")
 
 
 def parse_calc(text):
-    """reference reader of an emitted calculation body: standard precedence, left associative"""
+    """reference reader of a calculation body: CSS calc syntax — standard precedence, left
+    associative, and `+` / `-` are operators only with white space on both sides"""
     toks, pos = [], 0
     text = text.strip()
     while pos < len(text):
         m = TOK.match(text, pos)
         if not m:
             raise ValueError("cannot tokenise %r at %d" % (text, pos))
-        toks.append(m.group(1))
-        pos = m.end()
+        end = m.end()
+        space_after = end < len(text) and text[end].isspace()
+        toks.append((m.group(2), bool(m.group(1)), space_after))
+        pos = end
     i = 0
 
     def peek():
-        return toks[i] if i < len(toks) else None
+        return toks[i][0] if i < len(toks) else None
 
     def atom():
         nonlocal i
@@ -207,7 +224,7 @@ def parse_calc(text):
         nonlocal i
         e = atom()
         while peek() in ("*", "/"):
-            op = toks[i]
+            op = toks[i][0]
             i += 1
             e = ("b", op, e, atom())
         return e
@@ -216,13 +233,15 @@ def parse_calc(text):
         nonlocal i
         e = term()
         while peek() in ("+", "-"):
-            op = toks[i]
+            op, before, after = toks[i]
+            if not (before and after):
+                raise ValueError("`%s` without white space on both sides is not an operator" % op)
             i += 1
             e = ("b", op, e, term())
         return e
     e = expr()
     if i != len(toks):
-        raise ValueError("trailing tokens")
+        raise ValueError("operand follows operand without an operator: %r" % toks[i][0])
     return e
 
 
@@ -292,11 +311,11 @@ def oracle_call(fn, args, got):
     if len(nums) == len(args):
         dims = {UNITS[a[2]][0] for a in nums}
         if len(dims) == 1 and "" not in {a[2] for a in nums} and dims <= {"length", "time", "angle"} and "em" not in {a[2] for a in nums}:
+            # (units of one dimension with exact conversion ratios: the result is a number)
             keys = [Fraction(a[1]) * Fraction(UNITS[a[2]][1]) for a in nums]
             if fn == "clamp":
-                if keys[0] > keys[2]:
-                    return None
-                w = keys[0] if keys[1] <= keys[0] else (keys[2] if keys[1] >= keys[2] else keys[1])
+                # CSS Values 4: clamp(MIN, VAL, MAX) = max(MIN, min(VAL, MAX)) — also when MIN > MAX
+                w = max(keys[0], min(keys[1], keys[2]))
             else:
                 w = min(keys) if fn == "min" else max(keys)
             pv = parse_value(got)
@@ -363,6 +382,34 @@ def judge(case, impl, asis, spec):
         return Verdict(True, oracle_call(call.group(1), args, got))
     a = unhx(asis) if asis is not None else None
     return Verdict(a is None or a == "bad-op" or got == a, oracle_tree(dec_tree(f[1]), got))
+
+
+def div_chain(t):
+    """only `/` over plain numbers, no inner parentheses"""
+    if t[0] == "n":
+        return True
+    return t[0] == "b" and t[1] == "/" and div_chain(t[2]) and div_chain(t[3])
+
+
+def explained(case, r, live):
+    """`cf` cases: the as-is model reproduces the result and differs from the specification model.
+    `cfp` cases (whole argument in parentheses, not modelled in Lean): the failure is of the kind and
+    the input of the syntactic class of a live known finding."""
+    f = case.lines[0].split("\t")
+    why = r["v"].fails or ""
+    if f[0] == "cf":
+        return bool(r["v"].corr_ok and r["asis"][0] is not None and r["asis"] != r["spec"])
+    if f[0] != "cfp":
+        return False
+    ids = {x["id"] for x in live}
+    t, depth = dec_tree(f[1]), 0
+    while t[0] == "p":
+        t, depth = t[1], depth + 1
+    if "C30-paren-literal-division" in ids and t[0] == "b" and div_chain(t) and why.startswith("all operands are compatible numbers"):
+        return True
+    if "C30-nested-parens-unrebuilt" in ids and depth >= 2 and why.startswith("emitted calculation does not read back"):
+        return True
+    return False
 
 
 def totuple(x):
@@ -467,9 +514,13 @@ def ident_simple(t):
     return ident_simple(a) and ident_simple(b)
 
 
-def mkcase(t, stratum):
-    src = "a{b: calc(" + scss(t) + ")}\n"
-    return Case("\t".join(["cf", enc(t), hx(src)]), stratum, {"tree": t, "call": "calc(" + scss(t) + ")"})
+def mkcase(t, stratum, spaced=False):
+    body = scss(t, spaced)
+    call = ("calc( " + body + " )") if spaced else ("calc(" + body + ")")
+    src = "a{b: " + call + "}\n"
+    # whole-argument parentheses: the Lean model has no opinion (op `cfp`), the oracle decides
+    op = "cfp" if t[0] == "p" else "cf"
+    return Case("\t".join([op, enc(t), hx(src)]), stratum, {"tree": t, "call": call})
 
 
 def mkcall(fn, args, stratum):
@@ -521,6 +572,48 @@ def gen(tier, rng, boost=1):
             continue
         produced += 1
         yield mkcase(t, st)
+    # whole-argument parentheses (1-2 levels) and redundant parentheses around every binary node,
+    # tight and spaced source forms
+    made = 0
+    attempts = 0
+    while made < n // 3 and attempts < n * 10:
+        attempts += 1
+        pool = rng.choice(POOLS["same-unit"] + POOLS["convertible"] + POOLS["percent-mix"])
+        mode = rng.choice(["num", "noident", "noident"])
+        t = fix_parens(rand_tree(rng, rng.choice([1, 1, 2, 2, 3, 4, 5]), mode, pool + ([""] if mode != "num" else [])), rng)
+        if not admissible(t) or not ident_simple(t):
+            continue
+        k = rng.random()
+        if k < 0.35:
+            t = full_parens(t)
+        for _ in range(rng.choice([1, 1, 2]) if k < 0.85 else 0):
+            t = ("p", t)
+        made += 1
+        yield mkcase(t, "whole-arg-parens", spaced=rng.random() < 0.4)
+    for txt in ["(1% - 2px)", "((1% - 2px))", "(1% - 2px - 3%)", "(1% + 2px)", "((var(--x) - 1px) - 2%)",
+                "(1px - var(--x))", "((1% - 2px) * 2)", "(2 * (1% - 2px))"]:
+        for sp in (False, True):
+            yield mkcase(parse_calc(txt), "whole-arg-parens", spaced=sp)
+    # clamp / min / max over ALL orderings of three comparable numbers (ties, MIN > MAX), the
+    # values written in mixed convertible units (96px = 1in = 72pt = 2.54cm ...)
+    forms = {1: ["96px", "1in", "72pt", "2.54cm"], 2: ["192px", "2in", "144pt", "5.08cm"],
+             3: ["288px", "3in", "216pt", "7.62cm"]}
+    reps = 1 if quick else 6
+    for fn in ("clamp", "min", "max"):
+        for a in (1, 2, 3):
+            for b in (1, 2, 3):
+                for c in (1, 2, 3):
+                    for rep in range(reps * 2):
+                        args = []
+                        for v in (a, b, c):
+                            txt = forms[v][0] if rep == 0 else rng.choice(forms[v])
+                            m = re.fullmatch(r"([0-9.]+)([a-z]+)", txt)
+                            args.append(("n", m.group(1), m.group(2)))
+                        yield mkcall(fn, args, "call-orderings")
+        for a, b, c in (("1s", "500ms", "2s"), ("2s", "1500ms", "1s"), ("90deg", "100grad", "0.5turn"),
+                        ("5px", "3px", "1px"), ("2in", "1cm", "10px"), ("-1px", "-2px", "-3px")):
+            args = [("n",) + re.fullmatch(r"(-?[0-9.]+)([a-z]+)", x).groups() for x in (a, b, c)]
+            yield mkcall(fn, args, "call-orderings")
     # min / max / clamp
     for _ in range(n // 5):
         fn = rng.choice(["min", "max", "clamp"])
